@@ -2,32 +2,11 @@ package ecdsa
 
 import (
 	"crypto/elliptic"
-	"errors"
 	"math/big"
 )
 
 // C13: the ECDSA fork accepts and produces exactly standard ECDSA (range gate, hashToInt,
 // entropy faults; the ASN.1 front end is compared with the standard library's in zz_verif_C13b.go).
-
-func c13Curve() elliptic.Curve {
-	switch vSplit(vInt("curve", 0, 3), 0, 3) {
-	case 0:
-		return elliptic.P224()
-	case 1:
-		return elliptic.P256()
-	case 2:
-		return elliptic.P384()
-	}
-	return elliptic.P521()
-}
-
-func c13Int(name string, maxLen int) *big.Int {
-	z := new(big.Int).SetBytes(vBytesC(name, 0, maxLen))
-	if vBool(name + "_negative") {
-		z.Neg(z)
-	}
-	return z
-}
 
 // FIPS 186-4: a signature is examined further only if 0 < r < n and 0 < s < n; everything else is
 // rejected without touching the arithmetic (in particular without inverting s = 0).
@@ -89,30 +68,6 @@ func VerifC13_hash_to_int() {
 	got.FillBytes(buf)
 	vAssert(vBytesEq(buf, want), "leftmost-bits-of-the-digest")
 	vReach("hash-to-int")
-}
-
-// entropy reader that fails (and keeps failing) from a chosen call on, with optional short reads
-type c13Reader struct {
-	failAt int
-	calls  int
-	failed bool
-	short  bool
-}
-
-func (r *c13Reader) Read(p []byte) (int, error) {
-	r.calls++
-	if r.calls > r.failAt {
-		r.failed = true
-		return 0, errors.New("entropy source failed")
-	}
-	n := len(p)
-	if r.short && n > 1 {
-		n = n / 2
-	}
-	for i := 0; i < n; i++ {
-		p[i] = byte(r.calls + i)
-	}
-	return n, nil
 }
 
 // if the entropy source fails at any read, key generation and signing return an error and nothing else
